@@ -457,6 +457,7 @@ class C05(ExtrusionMonitor):
                (3, "firmware", mk(fw=True)), (1, "firmware-rel", mk(fw=True, rel=True, inch=True)),
                (2, "e-only-g92e", mk(g92e_retracted=True, g92e_entry=True, p_inside=0.5)), (1, "e-only-at", mk(at=True)),
                (2, "relative-extrusion", mk(rel=True, g90e=True, p_inside=0.5, g92e_retracted=True)),
+               (1, "relative-extrusion-firmware", mk(rel=True, g90e=True, fw=True, p_inside=0.5)),
                (1, "e-only-arcs", mk(arcs=True))]
 
     def oracle(self, tr, stats, case):
